@@ -176,6 +176,8 @@ def param_sets(ctx):
         # non-square memory corridors (height // 2 vs width // 2 must not be confused), tall and wide
         {'name': 'memory', 'shape': (7, 5), 'colors': [1, 2]}, {'name': 'memory', 'shape': (9, 5), 'colors': [2, 4]}, {'name': 'memory', 'shape': (5, 9), 'colors': [1, 3]},
         {'name': 'rooms', 'shape': (7, 5), 'layout': (3, 1)}, {'name': 'keydoor', 'shape': (5, 8)}, {'name': 'keydoor', 'shape': (7, 6)}, {'name': 'keydoor', 'shape': (8, 7)}, {'name': 'teleport', 'shape': (6, 4)},
+        # sizes the layout does not divide evenly (rooms of unequal size; the outer wall must still be the grid boundary)
+        {'name': 'rooms', 'shape': (6, 6), 'layout': (2, 2)}, {'name': 'rooms', 'shape': (8, 8), 'layout': (2, 2)}, {'name': 'rooms', 'shape': (6, 9), 'layout': (1, 3)},
         {'name': 'rooms', 'shape': (5, 5), 'layout': (2, 2)}, {'name': 'rooms', 'shape': (5, 7), 'layout': (1, 2)}, {'name': 'rooms', 'shape': (7, 7), 'layout': (3, 3)},
         {'name': 'dynamic_obstacles', 'shape': (4, 5), 'num_obstacles': 1, 'random_agent': False},
         {'name': 'dynamic_obstacles', 'shape': (5, 5), 'num_obstacles': 3, 'random_agent': True},
